@@ -10,21 +10,22 @@ import QV.Proofs.ScanRefine
 namespace QV.Server
 open QV QV.Writer
 
-/-- `Framed` for the processing monad (`ProcessingResult`) -/
+/-- `Framed` for the processing monad (`ProcessingResult`): the writer component of the state
+    (the ghost log is irrelevant) -/
 def PFramed {α} (k : Bool) (b : Nat) (m : PM α) : Prop :=
-  ∀ s, b ≤ s.cursor → b ≤ s.rrStart → Fr k b s (m s).2
+  ∀ s : PS, b ≤ s.w.cursor → b ≤ s.w.rrStart → Fr k b s.w (m s).2.w
 
 variable {k : Bool}
 
-theorem pframed_pure {α} (b : Nat) (a : α) : PFramed k b (pure a : PM α) := fun s hc _ => Fr.refl _ b s hc
-theorem pframed_fail {α} (b : Nat) (e : PErr) : PFramed k b (PM.fail e : PM α) := fun s hc _ => Fr.refl _ b s hc
-theorem pframed_panic {α} (b : Nat) : PFramed k b (PM.panic : PM α) := fun s hc _ => Fr.refl _ b s hc
+theorem pframed_pure {α} (b : Nat) (a : α) : PFramed k b (pure a : PM α) := fun s hc _ => Fr.refl _ b s.w hc
+theorem pframed_fail {α} (b : Nat) (e : PErr) : PFramed k b (PM.fail e : PM α) := fun s hc _ => Fr.refl _ b s.w hc
+theorem pframed_panic {α} (b : Nat) : PFramed k b (PM.panic : PM α) := fun s hc _ => Fr.refl _ b s.w hc
 
 theorem pframed_bind {α β} {b : Nat} {x : PM α} {f : α → PM β} (hx : PFramed k b x) (hf : ∀ a, PFramed k b (f a)) :
     PFramed k b (x >>= f) := by
   intro s hc hr
   have h1 := hx s hc hr
-  show Fr k b s (PM.bind x f s).2
+  show Fr k b s.w (PM.bind x f s).2.w
   unfold PM.bind
   rcases hxs : x s with ⟨(a | e | _), s1⟩
   · rw [hxs] at h1
@@ -33,21 +34,23 @@ theorem pframed_bind {α β} {b : Nat} {x : PM α} {f : α → PM β} (hx : PFra
   · rw [hxs] at h1; exact h1
   · rw [hxs] at h1; exact h1
 
-theorem pframed_liftW {α} (b : Nat) (m : M α) (h : Framed k b m) : PFramed k b (PM.liftW m) := by
+/-- a logged header operation -/
+theorem pframed_hdrOp (b : Nat) (ev : Ev) (m : M Unit) (h : Framed k b m) : PFramed k b (PM.hdrOp ev m) := by
   intro s hc hr
-  have := h s hc hr
-  unfold PM.liftW
-  rcases hm : m s with ⟨(a | e | _), s1⟩ <;> (rw [hm] at this; exact this)
+  have := h s.w hc hr
+  unfold PM.hdrOp
+  rcases hm : m s.w with ⟨(a | e | _), s1⟩ <;> (rw [hm] at this; exact this)
 
-theorem pframed_liftU (b : Nat) (m : M Unit) (h : Framed k b m) : PFramed k b (PM.liftU m) := pframed_liftW b m h
-
-theorem pframed_eat (b : Nat) (m : M Unit) (h : Framed k b m) : PFramed k b (executeAllowingTruncation m) := by
+/-- a logged record-adding call -/
+theorem pframed_addCall (b : Nat) (ev : AddEv) (m : M HV) (h : Framed k b m) : PFramed k b (PM.addCall ev m) := by
   intro s hc hr
-  have := h s hc hr
-  unfold executeAllowingTruncation
-  rcases hm : m s with ⟨(a | e | _), s1⟩
+  have := h s.w hc hr
+  unfold PM.addCall
+  rcases hm : m s.w with ⟨(a | e | _), s1⟩
   · rw [hm] at this; exact this
-  · rw [hm] at this; cases e <;> exact this
+  · rw [hm] at this
+    dsimp only
+    split <;> exact this
   · rw [hm] at this; exact this
 
 theorem framed_withHv (b : Nat) (hv : HV) (m : M Unit) (h : Framed k b m) : Framed k b (withHv hv m) := by
@@ -60,20 +63,11 @@ theorem framed_withHv (b : Nat) (hv : HV) (m : M Unit) (h : Framed k b m) : Fram
     rw [hm] at h1
     exact (h0.trans h1).trans (fr_same b s1 _ rfl rfl rfl h1.cur (fun _ => ⟨rfl, rfl⟩))
 
-theorem pframed_forM {α} (b : Nat) (f : α → PM Unit) (hf : ∀ a, PFramed k b (f a)) :
-    ∀ l : List α, PFramed k b (l.forM f) := by
-  intro l
-  induction l with
-  | nil => exact pframed_pure b ()
-  | cons x xs ih =>
-    show PFramed k b (f x >>= fun _ => xs.forM f)
-    exact pframed_bind (hf x) fun _ => ih
-
-/-- a computation that never touches the writer -/
+/-- a computation that never touches the state -/
 theorem pframed_const {α} (b : Nat) (m : PM α) (h : ∀ s, (m s).2 = s) : PFramed k b m :=
-  fun s hc _ => by rw [h s]; exact Fr.refl _ b s hc
+  fun s hc _ => by rw [h s]; exact Fr.refl _ b s.w hc
 
-theorem readNameFromRdata_const (rdata : List UInt8) (start : Nat) (s : State) :
+theorem readNameFromRdata_const (rdata : List UInt8) (start : Nat) (s : PS) :
     (readNameFromRdata rdata start s).2 = s := by
   unfold readNameFromRdata
   split
@@ -84,44 +78,71 @@ theorem readNameFromRdata_const (rdata : List UInt8) (start : Nat) (s : State) :
       obtain ⟨n, rest⟩ := p
       cases rest <;> rfl
 
-theorem readSoaMinimum_const (rdata : List UInt8) (s : State) : (readSoaMinimum rdata s).2 = s := by
+theorem readSoaMinimum_const (rdata : List UInt8) (s : PS) : (readSoaMinimum rdata s).2 = s := by
   unfold readSoaMinimum
-  cases h1 : Wire.validateUncompressed rdata.toArray false with
-  | ok mlen =>
+  cases h1 : WName.parse rdata with
+  | none => rfl
+  | some v1 =>
+    obtain ⟨n1, r1⟩ := v1
     simp only
-    cases h2 : Wire.validateUncompressed (rdata.toArray.extract mlen rdata.toArray.size) false with
-    | ok rlen =>
+    cases h2 : WName.parse r1 with
+    | none => rfl
+    | some v2 =>
+      obtain ⟨n2, r2⟩ := v2
       simp only
       split
       · rfl
       · split <;> rfl
-    | err e => rfl
-    | panic => rfl
-  | err e => rfl
-  | panic => rfl
 
 /-! ### query.rs -/
 
 variable (b : Nat)
 
-theorem framed_addAdditionalAddresses (hb : 4 ≤ b) (z : Zone.Zone) (hint : Hint) (owner : WName) (sbc : Bool) :
-    Framed k b (addAdditionalAddresses z hint owner sbc) := by
-  intro s hc hr
+theorem pframed_addRrs (hb : 4 ≤ b) (optional : Bool) (sec : RrSection) (hint : Hint) (owner : WName)
+    (ty cls ttl : Nat) (rds : List (List UInt8)) : PFramed k b (PM.addRrs optional sec hint owner ty cls ttl rds) :=
+  pframed_addCall b _ _ (framed_withHv b _ _ (framed_addRrsetOp b hb _ _ _ _ _ _ _))
+
+theorem pframed_addRr1 (hb : 4 ≤ b) (sec : RrSection) (hint : Hint) (owner : WName) (ty cls ttl : Nat)
+    (rd : List UInt8) : PFramed k b (PM.addRr1 sec hint owner ty cls ttl rd) := by
+  unfold PM.addRr1
+  exact pframed_bind (pframed_addCall b _ _ (framed_withHv b _ _ (framed_addRrOp b hb _ _ _ _ _ _ _)))
+    fun _ => pframed_pure b ()
+
+theorem pframed_setAa (hb : 4 ≤ b) (v : Bool) : PFramed k b (PM.setAa v) :=
+  pframed_hdrOp b _ _ (framed_setAa b hb v)
+
+theorem pframed_setRcode (hb : 4 ≤ b) (rc : Nat) (hrc : rc < 16) : PFramed k b (PM.setRcode rc) :=
+  pframed_hdrOp b _ _ (framed_setRcode b hb rc hrc)
+
+theorem pframed_setTc (hb : 4 ≤ b) (v : Bool) : PFramed k b (PM.setTc v) :=
+  pframed_hdrOp b _ _ (framed_setTc b hb v)
+
+theorem pframed_clearRrs : PFramed k b PM.clearRrs := pframed_hdrOp b _ _ (framed_clearRrs b)
+
+theorem pframed_addAaaa (hb : 4 ≤ b) (z : Zone.Zone) (hint : Hint) (owner : WName) (optional : Bool)
+    (aaaa : Option Zone.Rrset) : PFramed k b (addAaaa z hint owner optional aaaa) := by
+  unfold addAaaa
+  split
+  · cases aaaa with
+    | some r => exact pframed_bind (pframed_addRrs b hb _ _ _ _ _ _ _ _) fun _ => pframed_pure b ()
+    | none => exact pframed_pure b ()
+  · exact pframed_pure b ()
+
+theorem pframed_addAdditionalAddresses (hb : 4 ≤ b) (z : Zone.Zone) (hint : Hint) (owner : WName)
+    (sbc optional : Bool) : PFramed k b (addAdditionalAddresses z hint owner sbc optional) := by
   unfold addAdditionalAddresses
   split
   · rename_i a aaaa _ _
-    refine framed_bind ?_ (fun h => ?_) s hc hr
-    · cases a with
-      | some r => exact framed_bind (framed_addRrsetOp b hb _ _ _ _ _ _ _) fun _ => framed_pure b _
-      | none => exact framed_pure b _
-    · split
-      · cases aaaa with
-        | some r => exact framed_addRrsetOp b hb _ _ _ _ _ _ _
-        | none => exact framed_pure b ()
-      · exact framed_pure b ()
-  · exact Fr.refl _ b s hc
-  · exact Fr.refl _ b s hc
-  · exact Fr.refl _ b s hc
+    cases a with
+    | some r =>
+      refine pframed_bind (pframed_addRrs b hb _ _ _ _ _ _ _ _) fun o => ?_
+      cases o with
+      | some _ => exact pframed_addAaaa b hb z _ owner optional aaaa
+      | none => exact pframed_pure b ()
+    | none => exact pframed_addAaaa b hb z hint owner optional aaaa
+  · exact pframed_pure b ()
+  · exact pframed_pure b ()
+  · exact pframed_panic b
 
 theorem pframed_additionalLoop (hb : 4 ≤ b) (z : Zone.Zone) (start : Nat) (hv : Option HV) :
     ∀ (rds : List (List UInt8)) (index : Nat), PFramed k b (additionalLoop z start hv rds index) := by
@@ -132,7 +153,7 @@ theorem pframed_additionalLoop (hb : 4 ≤ b) (z : Zone.Zone) (start : Nat) (hv 
     intro index
     unfold additionalLoop
     refine pframed_bind (pframed_const b _ (readNameFromRdata_const rd start)) fun name => ?_
-    refine pframed_bind (pframed_eat b _ (framed_addAdditionalAddresses b hb z _ name false)) fun _ => ?_
+    refine pframed_bind (pframed_addAdditionalAddresses b hb z _ name false true) fun _ => ?_
     exact ih _
 
 theorem pframed_doAdditional (hb : 4 ≤ b) (z : Zone.Zone) (rrType : Nat) (rrset : Zone.Rrset) (hv : Option HV) :
@@ -148,9 +169,9 @@ theorem pframed_addNegativeCachingSoa (hb : 4 ≤ b) (z : Zone.Zone) : PFramed k
   · split
     · exact pframed_fail b _
     · refine pframed_bind (pframed_const b _ (readSoaMinimum_const _)) fun m => ?_
-      exact pframed_liftW b _ (framed_addRrOp b hb _ _ _ _ _ _ _)
+      exact pframed_addRr1 b hb _ _ _ _ _ _ _
 
-theorem classifyNs_const (child : WName) : ∀ (rds : List (List UInt8)) (index : Nat) (s : State),
+theorem classifyNs_const (child : WName) : ∀ (rds : List (List UInt8)) (index : Nat) (s : PS),
     (classifyNs child rds index s).2 = s := by
   intro rds
   induction rds with
@@ -180,17 +201,23 @@ theorem classifyNs_const (child : WName) : ∀ (rds : List (List UInt8)) (index 
     · rw [hr] at h1; exact h1
     · rw [hr] at h1; exact h1
 
+theorem pframed_glueLoop (hb : 4 ≤ b) (z : Zone.Zone) (hv : HV) (optional : Bool) :
+    ∀ l : List (Nat × WName), PFramed k b (glueLoop z hv optional l) := by
+  intro l
+  induction l with
+  | nil => exact pframed_pure b ()
+  | cons p r ih =>
+    unfold glueLoop
+    exact pframed_bind (pframed_addAdditionalAddresses b hb z _ _ true optional) fun _ => ih
+
 theorem pframed_doReferral (hb : 4 ≤ b) (z : Zone.Zone) (child : NameL.Name) (ns : Zone.Rrset) :
     PFramed k b (doReferral z child ns) := by
   unfold doReferral
-  refine pframed_bind (pframed_liftW b _ (framed_withHv b _ _ (framed_addRrsetOp b hb _ _ _ _ _ _ _))) fun hv => ?_
+  refine pframed_bind (pframed_addRrs b hb _ _ _ _ _ _ _ _) fun hv => ?_
   refine pframed_bind (pframed_const b _ (classifyNs_const _ _ _)) fun r => ?_
   obtain ⟨glues, additionals⟩ := r
   simp only
-  refine pframed_bind (pframed_forM b _ (fun p => pframed_liftW b _ (framed_addAdditionalAddresses b hb z _ _ true)) _)
-    fun _ => ?_
-  exact pframed_forM b _ (fun p => pframed_eat b _ (framed_addAdditionalAddresses b hb z _ _ true)) _
-
+  exact pframed_bind (pframed_glueLoop b hb z _ false _) fun _ => pframed_glueLoop b hb z _ true _
 
 theorem rc_nxdomain_lt : RC "NXDOMAIN" < 16 := by decide
 theorem rc_servfail_lt : RC "SERVFAIL" < 16 := by decide
@@ -216,18 +243,17 @@ theorem pframed_followCname (hb : 4 ≤ b) (z : Zone.Zone) (qname : WName) (rrTy
           simp only
           split
           · exact pframed_fail b _
-          · refine pframed_bind (pframed_liftW b _ (framed_addRrOp b hb _ _ _ _ _ _ _)) fun _ => ?_
+          · refine pframed_bind (pframed_addRr1 b hb _ _ _ _ _ _ _) fun _ => ?_
             split
             · rename_i found _ _
-              refine pframed_bind (pframed_liftW b _ (framed_withHv b _ _ (framed_addRrsetOp b hb _ _ _ _ _ _ _)))
-                fun hv => ?_
+              refine pframed_bind (pframed_addRrs b hb _ _ _ _ _ _ _ _) fun hv => ?_
               exact pframed_doAdditional b hb z rrType found _
             · split
               · exact ih _ _
               · exact pframed_fail b _
             · exact pframed_doReferral b hb z _ _
             · exact pframed_addNegativeCachingSoa b hb z
-            · refine pframed_bind (pframed_liftU b _ (framed_setRcode b hb _ rc_nxdomain_lt)) fun _ => ?_
+            · refine pframed_bind (pframed_setRcode b hb _ rc_nxdomain_lt) fun _ => ?_
               exact pframed_addNegativeCachingSoa b hb z
             · exact pframed_pure b ()
             · exact pframed_pure b ()
@@ -236,22 +262,22 @@ theorem pframed_followCname (hb : 4 ≤ b) (z : Zone.Zone) (qname : WName) (rrTy
 theorem pframed_doCname (hb : 4 ≤ b) (z : Zone.Zone) (qname : WName) (c : Zone.Rrset) (rrType : Nat) :
     PFramed k b (doCname z qname c rrType) := by
   unfold doCname
-  refine pframed_bind (pframed_liftU b _ (framed_setAa b hb true)) fun _ => ?_
+  refine pframed_bind (pframed_setAa b hb true) fun _ => ?_
   exact pframed_followCname b hb z qname rrType _ _ _
 
 theorem pframed_answer (hb : 4 ≤ b) (z : Zone.Zone) (qname : WName) (qtype : Nat) : PFramed k b (answer z qname qtype) := by
   unfold answer
   split
   · rename_i found _ _
-    refine pframed_bind (pframed_liftU b _ (framed_setAa b hb true)) fun _ => ?_
-    refine pframed_bind (pframed_liftW b _ (framed_withHv b _ _ (framed_addRrsetOp b hb _ _ _ _ _ _ _))) fun hv => ?_
+    refine pframed_bind (pframed_setAa b hb true) fun _ => ?_
+    refine pframed_bind (pframed_addRrs b hb _ _ _ _ _ _ _ _) fun hv => ?_
     exact pframed_doAdditional b hb z qtype found _
   · exact pframed_doCname b hb z qname _ qtype
   · exact pframed_doReferral b hb z _ _
-  · refine pframed_bind (pframed_liftU b _ (framed_setAa b hb true)) fun _ => ?_
+  · refine pframed_bind (pframed_setAa b hb true) fun _ => ?_
     exact pframed_addNegativeCachingSoa b hb z
-  · refine pframed_bind (pframed_liftU b _ (framed_setRcode b hb _ rc_nxdomain_lt)) fun _ => ?_
-    refine pframed_bind (pframed_liftU b _ (framed_setAa b hb true)) fun _ => ?_
+  · refine pframed_bind (pframed_setRcode b hb _ rc_nxdomain_lt) fun _ => ?_
+    refine pframed_bind (pframed_setAa b hb true) fun _ => ?_
     exact pframed_addNegativeCachingSoa b hb z
   · exact pframed_panic b
   · exact pframed_panic b
@@ -265,24 +291,51 @@ theorem pframed_answerAnyLoop (hb : 4 ≤ b) (z : Zone.Zone) (qname : WName) :
   | cons r rest ih =>
     intro n
     unfold answerAnyLoop
-    refine pframed_bind (pframed_liftW b _ (framed_addRrsetOp b hb _ _ _ _ _ _ _)) fun _ => ?_
+    refine pframed_bind (pframed_addRrs b hb _ _ _ _ _ _ _ _) fun _ => ?_
     exact ih _
 
 theorem pframed_answerAny (hb : 4 ≤ b) (z : Zone.Zone) (qname : WName) : PFramed k b (answerAny z qname) := by
   unfold answerAny
   split
-  · refine pframed_bind (pframed_liftU b _ (framed_setAa b hb true)) fun _ => ?_
+  · refine pframed_bind (pframed_setAa b hb true) fun _ => ?_
     refine pframed_bind (pframed_answerAnyLoop b hb z qname _ _) fun n => ?_
     split
     · exact pframed_addNegativeCachingSoa b hb z
     · exact pframed_pure b ()
   · exact pframed_doReferral b hb z _ _
-  · refine pframed_bind (pframed_liftU b _ (framed_setRcode b hb _ rc_nxdomain_lt)) fun _ => ?_
-    refine pframed_bind (pframed_liftU b _ (framed_setAa b hb true)) fun _ => ?_
+  · refine pframed_bind (pframed_setRcode b hb _ rc_nxdomain_lt) fun _ => ?_
+    refine pframed_bind (pframed_setAa b hb true) fun _ => ?_
     exact pframed_addNegativeCachingSoa b hb z
   · exact pframed_panic b
   · exact pframed_panic b
   · exact pframed_panic b
+
+/-- `handle_non_axfr_query` on the writer plus the ghost log frames -/
+theorem pframed_handleNonAxfrQueryL (hb : 4 ≤ b) (z : Zone.Zone) (qname : WName) (qtype : Nat) (tr : Transport) :
+    PFramed k b (handleNonAxfrQueryL z qname qtype tr) := by
+  intro s hc hr
+  unfold handleNonAxfrQueryL
+  have h1 : Fr k b s.w (if qtype = QT "ANY" then answerAny z qname s else answer z qname qtype s).2.w := by
+    split
+    · exact pframed_answerAny b hb z qname s hc hr
+    · exact pframed_answer b hb z qname qtype s hc hr
+  simp only
+  rcases hres : (if qtype = QT "ANY" then answerAny z qname s else answer z qname qtype s) with ⟨(a | e | _), s1⟩
+  · rw [hres] at h1; exact h1
+  · rw [hres] at h1
+    have hr1 : b ≤ s1.w.rrStart := by rw [h1.rrStart]; exact hr
+    cases e with
+    | servFail =>
+      simp only
+      refine h1.trans (pframed_bind (pframed_setAa b hb false) (fun _ =>
+        pframed_bind (pframed_setRcode b hb _ rc_servfail_lt) fun _ => pframed_clearRrs b) s1 h1.cur hr1)
+    | truncation =>
+      simp only
+      refine h1.trans (pframed_bind (pframed_clearRrs b) (fun _ => ?_) s1 h1.cur hr1)
+      split
+      · exact pframed_bind (pframed_setAa b hb false) fun _ => pframed_setRcode b hb _ rc_servfail_lt
+      · exact pframed_setTc b hb true
+  · rw [hres] at h1; exact h1
 
 /-- **`handle_non_axfr_query` frames**: whatever the zone answers — records, CNAME chains,
     referrals, negative answers, the SERVFAIL and truncation epilogues — the header bits outside
@@ -291,28 +344,10 @@ theorem pframed_answerAny (hb : 4 ≤ b) (z : Zone.Zone) (qname : WName) : PFram
 theorem framed_handleNonAxfrQuery (hb : 4 ≤ b) (z : Zone.Zone) (qname : WName) (qtype : Nat) (tr : Transport) :
     Framed k b (handleNonAxfrQuery z qname qtype tr) := by
   intro s hc hr
+  have h := pframed_handleNonAxfrQueryL (k := k) b hb z qname qtype tr { w := s } hc hr
   unfold handleNonAxfrQuery
-  have h1 : Fr k b s (if qtype = QT "ANY" then answerAny z qname s else answer z qname qtype s).2 := by
-    split
-    · exact pframed_answerAny b hb z qname s hc hr
-    · exact pframed_answer b hb z qname qtype s hc hr
-  simp only
-  rcases hres : (if qtype = QT "ANY" then answerAny z qname s else answer z qname qtype s) with ⟨(a | e | _), s1⟩
-  · rw [hres] at h1; exact h1
-  · rw [hres] at h1
-    have hr1 : b ≤ s1.rrStart := by rw [h1.rrStart]; exact hr
-    cases e with
-    | servFail =>
-      simp only
-      refine h1.trans (framed_bind (framed_setAa b hb false) (fun _ =>
-        framed_bind (framed_setRcode b hb _ rc_servfail_lt) fun _ => framed_clearRrs b) s1 h1.cur hr1)
-    | truncation =>
-      simp only
-      refine h1.trans (framed_bind (framed_clearRrs b) (fun _ => ?_) s1 h1.cur hr1)
-      split
-      · exact framed_bind (framed_setAa b hb false) fun _ => framed_setRcode b hb _ rc_servfail_lt
-      · exact framed_setTc b hb true
-  · rw [hres] at h1; exact h1
+  rcases hres : handleNonAxfrQueryL z qname qtype tr { w := s } with ⟨(a | e | _), s1⟩ <;>
+    (rw [hres] at h; exact h)
 
 
 /-! ### the scan (src/server/mod.rs) -/
